@@ -1120,11 +1120,36 @@ func (a *Audit) mapMayBeNil(m ssa.Value) bool {
 			if p, isP := fa.X.(*ssa.Parameter); isP && p.Parent() != nil && p.Parent().Object() != nil && p.Parent().Object().Exported() && p.Parent().Signature.Recv() == nil {
 				return true
 			}
+			// the map of a local copy of a value that came from outside (meta := f.Meta.(HashMap); meta.Val[k] = v)
+			if al, isAl := fa.X.(*ssa.Alloc); isAl {
+				for _, ref := range *al.Referrers() {
+					if st, ok := ref.(*ssa.Store); ok && st.Addr == ssa.Value(al) {
+						src := st.Val
+						if ex, ok := src.(*ssa.Extract); ok {
+							src = ex.Tuple
+						}
+						if ta, ok := src.(*ssa.TypeAssert); ok && types.IsInterface(ta.X.Type()) {
+							return true
+						}
+					}
+				}
+			}
 			// field of a struct: initialised by the module's constructors (checked by ctor rule)
 			return false
 		}
 	case *ssa.Field:
-		// field of a struct value built in this function with a MakeMap
+		// field of a struct value built in this function with a MakeMap; the map of a value that came from outside
+		// (an asserted lisp value, a parameter) is whatever its maker left there: HashMap{} and (hash-map) have none
+		src := x.X
+		if ex, ok := src.(*ssa.Extract); ok {
+			src = ex.Tuple
+		}
+		switch y := src.(type) {
+		case *ssa.TypeAssert:
+			return isMalType(y.X.Type()) || types.IsInterface(y.X.Type())
+		case *ssa.Parameter:
+			return true
+		}
 		return false
 	}
 	return false
